@@ -70,11 +70,12 @@ struct Params
 
 struct Fatal {};                       // thrown by the harness' fatal reporter
 struct SeThrow { int id; int idx; };   // thrown by a side effect in mode 1
-struct ThrowInt { int id; };           // payload of THROW (not derived from std::exception)
+struct ThrowInt { int id; int arg; };   // payload of THROW (not derived from std::exception); arg = the argument the expression was evaluated with
 struct ThrowStd : std::runtime_error   // payload of THROW (std::exception with what())
 {
-  explicit ThrowStd(int id_) : std::runtime_error("P" + std::to_string(id_)), id(id_) {}
+  ThrowStd(int id_, int arg_) : std::runtime_error("P" + std::to_string(id_)), id(id_), arg(arg_) {}
   int id;
+  int arg;
 };
 
 namespace H
@@ -124,13 +125,13 @@ namespace H
   inline ThrowStd thr_std(Params const& p, int arg)
   {
     emit("C %d X 0 %d", p.id, arg);
-    return ThrowStd{p.id};
+    return ThrowStd{p.id, arg};
   }
   inline ThrowStd thr_std(Params const& p, std::string const& arg) { return thr_std(p, sidx(arg)); }
   inline ThrowInt thr_int(Params const& p, int arg)
   {
     emit("C %d X 0 %d", p.id, arg);
-    return ThrowInt{p.id};
+    return ThrowInt{p.id, arg};
   }
   inline ThrowInt thr_int(Params const& p, std::string const& arg) { return thr_int(p, sidx(arg)); }
 }
